@@ -708,10 +708,15 @@ pub fn walk_file<E: EndianParse>(data: &[u8], sink: &mut Sink) {
     let r = file.section_headers_with_strtab();
     sink.res(&r);
     if let Ok((_, Some(strs))) = &r {
-        for o in [0usize, 1, 7, usize::MAX] {
+        // every offset of the first 160 bytes (names start anywhere a header field says, also inside a multi-byte
+        // character) and a few far ones
+        for o in (0usize..160).chain([usize::MAX, data.len(), data.len() / 2]) {
             match strs.get(o) {
                 Ok(x) => sink.fold_bytes(x.as_bytes()),
                 Err(err) => fold_err(sink, &err),
+            }
+            if let Ok(x) = strs.get_raw(o) {
+                sink.fold_bytes(x);
             }
         }
     }
